@@ -9,7 +9,7 @@ CHECKS = {
         "technique": "TLA+ spec (Grammar.tla, Lexer.tla) model checked with TLC; TLC-enumerated token/character strings replayed into Scanner/Parser/model_description; recorded parses of generated sentences judged by TLC (Grammar_Trace)",
         "text": "Bounded-exhaustive: TLC proves on every token string (<=4 over 22 kinds quick; <=4 over 27, <=5 over 16, <=6 over 10 kinds thorough) and every character-class string (<=4 / <=5 over 16 classes) that the stratified grammar is unambiguous, that its two definitions agree and that the transcription of parser.py/scanner.py refines it; every one of those strings is then run through the real Scanner, Parser and model_description and compared with the Abs verdict (in the language? which tree? all tokens consumed?). Beyond the bound, generated sentences up to depth 9 and single-token mutations are parsed by the real code and each recorded parse is judged by TLC (valid tree, yield = all tokens, = generating tree); for every fifth sentence all calls of the Parser methods are recorded with sys.setprofile and checked step by step against the spec operator of that method; long random character strings are scanned by the real code and judged by Lexer_Trace.",
         "ref": "DESIGN.md §3.1, §3.2, §4 C01",
-        "note": "Trusted: TLC, the AST projection fv/syntax.py:project, the renderer (lexeme pool is ASCII). Acceptance of a sentence is never demanded (the statement allows rejection); non-ASCII identifiers are not covered.",
+        "note": "Trusted: TLC, the AST projection fv/syntax.py:project, the renderer (lexeme pool is ASCII; the character-level replay also draws non-ASCII letters for the letter class). Acceptance of a sentence is never demanded (the statement allows rejection).",
     },
     "C02": {
         "technique": "TLA+ spec (TermAlgebra.tla: set-valued denotation + transcription of the operator overloads) model checked with TLC over every formula up to an operator bound; each exported formula replayed into model_description; random deeper formulas judged by TLC (TermAlgebra_Trace)",
@@ -19,7 +19,7 @@ CHECKS = {
     },
     "C04": {
         "technique": "TLA+ spec (Design.tla: cell-level meaning of labels, label order, slices) model checked with TLC on a small scope; every TLC-generated (frame, formula) case replayed into design_matrices and compared cell by cell; recorded builds on random frames judged by TLC (Design_Trace)",
-        "text": "TLC enumerates every frame of the small scope (3-4 rows, factors with up to 3 levels) x 14 formula shapes, checks the Abs design function's theorems and exports the complete expected design (labels, cells, slices); the real code is run on each and must agree exactly. Random worlds (3-30 rows, str / Categorical / ordered / integer-via-C columns, unequal level counts, numeric calls, interactions up to arity 3 in random factor order, group terms) are built by the real code and every recorded design is judged by TLC: each cell equals the meaning of its label, labels and columns agree in number and order, levels sorted or as declared, cartesian label order with the first factor slowest. The same designs are then evaluated on new data (all training rows, reordered and partly repeated) and the resulting matrices are judged against the same labels.",
+        "text": "TLC enumerates every frame of the small scope (3-4 rows, factors with up to 3 levels) x 14 formula shapes, checks the Abs design function's theorems and exports the complete expected design (labels, cells, slices); the real code is run on each and must agree exactly. Random worlds (3-30 rows; factors stored as object / pandas string / Categorical / ordered Categorical / integer-via-C columns, integers stored as int64 / float64 / nullable Int64, unequal level counts, numeric calls, interactions up to arity 3 in random factor order, group terms) are built by the real code and every recorded design is judged by TLC: each cell equals the meaning of its label, labels and columns agree in number and order, levels sorted or as declared, cartesian label order with the first factor slowest. The same designs are then evaluated on new data (all training rows, reordered and partly repeated) and the resulting matrices are judged against the same labels.",
         "ref": "DESIGN.md §3.7, §4 C04",
         "note": "Trusted: TLC, fv/design.py and fv/gen.py (materialisation of abstract frames, parsing of label strings with the generator's name tables). Integer-valued data only (exact products). Builds that raise are counted, not judged here.",
     },
